@@ -1,16 +1,25 @@
 (** C12 - Mesh.grade as it runs on EVERY mesh.write(), on a mesh that may have been graded before.
 
     Mesh.grade = BlockList.grade_blocks ; propagate_gradings ; check_consistency is the model of
-    Model/Propagate.v (C01/C02).  That file starts from the state assemble() leaves ([init]); here the
-    same functions are run from an arbitrary state [s] - the one an earlier write left behind:
+    Model/Propagate.v (C01/C02), which starts from the state assemble() leaves ([init]).
 
+    REPAIRED code (/repo 79421ab, fixes/C12-4.diff) - [grade]: BlockList.grade_blocks first calls reset() on
+    every wire manager: every wire gets an empty Grading, a WirePropagateManager drops the chops it copied,
+    a WireChopManager empties its axis-level grading and keeps the user's chops (they are the user's and
+    never change: copy_grading only adds chops to an undefined axis) - [reset]; then it grades, propagates
+    and checks as in the first run.  What an earlier write left behind is discarded.
+
+    Code BEFORE that repair - [grade_no_reset], kept because the theorem about it explains why the defect
+    was invisible for count-only chops: the same functions run from the state [s] an earlier write left:
     - an axis the user chopped (WireChopManager.grade, after fixes/C12-1.diff) gives each of its wires a
-      fresh Grading and adds the user's chops again: [grade_axis2];  the chops of a WireChopManager
-      are the user's and never change (copy_grading only adds chops to an undefined axis);
+      fresh Grading and adds the user's chops again: [grade_axis2];
     - an axis without user chops (WirePropagateManager.grade) keeps the chops it copied and its wires
       keep their gradings; copy_neighbours copies again from every DEFINED coincident wire (the last
       one wins), propagate_grading skips defined wires: [Propagate.grade_axis] unchanged;
     - BlockList.propagate_gradings / Axis.copy_grading / check_consistency: unchanged.
+
+    Edge lengths are no input of this model: a chop is its count.  (They are inputs of the payload model
+    of C04, where a count can follow a length; after the repair a repeated grade recomputes from them.)
 
     The state a write leaves on the blocks is kept in finite form (per block the section lists of its
     twelve wires and the chops held by its three axes): [tab_g], [tab_a], [untab].  No proofs here. *)
@@ -33,8 +42,8 @@ Section Regrade.
 
   Inductive gres := GOk (s : st) | GUndefined | GInconsistent | GNoFuel | GBadOracle.
 
-  (** [fx = false]: the code before fixes/C12-1.diff (chops appended to what the wires hold) *)
-  Definition grade (fx : bool) (s : st) : gres :=
+  (** before fixes/C12-4.diff; [fx = false]: also before fixes/C12-1.diff (chops appended to what the wires hold) *)
+  Definition grade_no_reset (fx : bool) (s : st) : gres :=
     if negb (oracle_ok bs o_coin o_nbrs) then GBadOracle else
     match propagate bs o_coin o_nbrs (fuel0 bs)
             ((if fx then grade_blocks2 else grade_blocks bs o_coin) s) (seq 0 (nblocks bs)) with
@@ -42,6 +51,12 @@ Section Regrade.
     | Stuck _ _ => GUndefined
     | Done s' => if consistent bs s' then GOk s' else GInconsistent
     end.
+
+  (** WireManagerBase.reset on every axis of every block: no wire holds a grading, no propagate manager
+      holds chops, the chop managers hold the user's chops - whatever [s] was *)
+  Definition reset (s : st) : st := {| g := fun _ => []; ach := user_chops bs |}.
+  (** the repaired Mesh.grade *)
+  Definition grade (s : st) : gres := grade_no_reset true (reset s).
 
   (** ** finite form of the state *)
   Definition block_wires (b : nat) : list wire := flat_map wires_of_axis (axes_of_block b).
